@@ -107,6 +107,51 @@ def lin(fn, nid, env=None):
     return {fn.fp(nid): 1}
 
 
+def local_env(fn):
+    """substitution for locals that have exactly one definition (their initialiser) and are never written again:
+    {key: lin(init)} -- so that `const unsigned n = size(); ... n/2 - 1` and `size()/2 - 1` normalise alike"""
+    defs = {}
+    writes = {}
+    for n in fn.walk():
+        if n['k'] == 'DeclStmt':
+            for d in n.get('decls', []):
+                k = '%s#%d' % (d['name'], d['did'])
+                if d.get('init') and not d.get('static'):
+                    defs[k] = (d['init'], d.get('ty') or '')
+        elif n['k'] in ('BinaryOperator', 'CompoundAssignOperator') and n.get('op') in ('=', '+=', '-=', '*=', '/=', '<<=', '>>=', '|=', '&=', '%='):
+            t = fn.strip(n['ch'][0])
+            if t is not None and t['k'] == 'DeclRefExpr':
+                k = '%s#%d' % (t.get('name'), t.get('did'))
+                writes[k] = writes.get(k, 0) + 1
+        elif n['k'] == 'UnaryOperator' and n.get('op') in ('++', '--', '&'):
+            t = fn.strip(n['ch'][0])
+            if t is not None and t['k'] == 'DeclRefExpr':
+                k = '%s#%d' % (t.get('name'), t.get('did'))
+                writes[k] = writes.get(k, 0) + 1
+    env = {}
+    for k, (init, ty) in defs.items():
+        if writes.get(k):
+            continue
+        t = ty.replace('const ', '').strip()
+        if t not in ('int', 'unsigned int', 'unsigned', 'long', 'unsigned long', 'std::size_t', 'size_t', 'std::vector::size_type'):
+            continue
+        # the initialiser must itself be free of loop-carried state: only allow it when it mentions no written local
+        ment = set()
+        for x in fn.walk(init):
+            if x['k'] == 'DeclRefExpr' and x.get('dk') in ('Local',):
+                ment.add('%s#%d' % (x.get('name'), x.get('did')))
+        if any(writes.get(m) for m in ment):
+            continue
+        env[k] = init
+    out = {}
+    for k, init in env.items():
+        out[k] = lin(fn, init, None)
+    # one more round so chains n -> m -> size() resolve
+    for k, init in env.items():
+        out[k] = lin(fn, init, {kk: vv for kk, vv in out.items() if kk != k})
+    return out
+
+
 def canon(d):
     if d is None:
         return None
